@@ -89,9 +89,9 @@ KidsPos(lib)  == {p \in Positions(lib) : Len(ItemAt(lib, p).items) >= 2}
 (* invalid names: one abstract representative per lexical class *)
 BadNames == IF Light
             THEN {[n |-> "#kw", c |-> "keyword"], [n |-> "#digit", c |-> "digit"], [n |-> "#dot", c |-> "dot"],
-                  [n |-> "#space", c |-> "space"]}
+                  [n |-> "#space", c |-> "space"], [n |-> "#comment", c |-> "comment"]}
             ELSE {[n |-> "#kw", c |-> "keyword"], [n |-> "#digit", c |-> "digit"], [n |-> "#dot", c |-> "dot"],
-                  [n |-> "#space", c |-> "space"], [n |-> "#empty", c |-> "empty"], [n |-> "#bool", c |-> "boollit"],
+                  [n |-> "#space", c |-> "space"], [n |-> "#comment", c |-> "comment"], [n |-> "#empty", c |-> "empty"], [n |-> "#bool", c |-> "boollit"],
                   [n |-> "#hyphen", c |-> "hyphen"]}
 (* valid names that are not ASCII *)
 GoodNames == IF Light THEN {[n |-> "#na1", c |-> "nonascii"]}
@@ -134,7 +134,7 @@ Entry(v, a) ==
    dangling |-> ToSeq(a.dangling),
    tys      |-> IF a.out = "Err" THEN <<>> ELSE TyList(a.rt),
    probes   |-> IF a.out = "Err" THEN <<>>
-                ELSE IF v.macro = "usetree" THEN ToSeq(PositiveProbes(a.rt))
+                ELSE IF v.macro = "usetree" \/ Mode = "sig" THEN ToSeq(PositiveProbes(a.rt))
                 ELSE ToSeq(PositiveProbes(a.rt)) \o ToSeq(NegativeProbes(a.rt)) \o ToSeq(SigProbes(a.rt))]
 
 Step(v) ==
@@ -194,6 +194,33 @@ BuildLib(pairs) ==
   \o ModIf("ma", ItemsAt(pairs, "ma") \o ModIf("n", ItemsAt(pairs, "ma.n")))
   \o ModIf("mb", ItemsAt(pairs, "mb") \o ModIf("n", ItemsAt(pairs, "mb.n")))
 DupLabel(c, how) == "dup/" \o c.kind \o "/" \o c.ident \o "/" \o c.p1 \o "/" \o c.p2 \o "/" \o how
+
+(* ------------------------------------------------- compound signatures *)
+(* "reachable under the signature the Rust types denote": items whose      *)
+(* signature has Option / List / Result / Verdict types (one or two levels, *)
+(* different component types in every position) over u32, bool, String and *)
+(* the host type T, in return and in parameter position, as constant and   *)
+(* as method parameter.  harness/src/tables/c18_sigs.rs (generated by      *)
+(* tools/gen_c18_sigs.py from SigCodes) has the Rust type of every code.   *)
+SigLeaves == {1, 5, 6, 7}
+SigPairs  == {<<5, 6>>, <<6, 7>>, <<7, 1>>, <<1, 5>>}
+SigD1 == {100 + 10 * x : x \in SigLeaves} \cup {200 + 10 * x : x \in SigLeaves}
+         \cup {300 + 10 * x + y : x \in SigLeaves, y \in SigLeaves}
+         \cup {400 + 10 * x + y : x \in SigLeaves, y \in SigLeaves}
+D1(k, pr) == k * 100 + 10 * pr[1] + pr[2]
+SigD2 == {o * 1000000 + D1(i, pr) * 1000 : o \in {1, 2}, i \in {3, 4}, pr \in SigPairs}
+         \cup {3000000 + (100 + 10 * pr[1]) * 1000 + pr[2] : pr \in SigPairs}     \* Result[Option[x], y]
+         \cup {3000000 + pr[1] * 1000 + (200 + 10 * pr[2]) : pr \in SigPairs}     \* Result[x, List[y]]
+         \cup {4000000 + (200 + 10 * pr[1]) * 1000 + pr[2] : pr \in SigPairs}     \* Verdict[List[x], y]
+         \cup {4000000 + pr[1] * 1000 + (100 + 10 * pr[2]) : pr \in SigPairs}     \* Verdict[x, Option[y]]
+SigCodes == {5, 6, 7} \cup SigD1 \cup SigD2
+SigItems(t) == <<Fn("mk", <<0>>, t, 31), Fn("rd", <<t>>, 0, 32), Const("KV", t, 33),
+                 Impl(1, <<Fn("gm", <<1, t>>, 0, 34)>>)>>
+SigLib(t, how) ==
+  CASE how = "root"     -> <<Type("T", 1, "clone")>> \o SigItems(t)
+    [] how = "root-rev" -> Rev(<<Type("T", 1, "clone")>> \o SigItems(t))
+    [] how = "module"   -> <<Mod("ms", SigItems(t)), Type("T", 1, "clone")>>
+    [] how = "no-type"  -> SubSeq(SigItems(t), 1, 3)      \* the host type is not registered
 
 (* ------------------------------------------------------------ use trees *)
 (* `use` items of library!: all trees with at most UB leaves over a world  *)
@@ -259,6 +286,9 @@ First ==
               \/ Step(Variant(DupLabel(c, "one-lib-rev"), Rev(BuildLib(DupSecond(c) \o DupFirst(c)))))
      \/ /\ Mode = "dup2"
         /\ \E c \in DupCells : Step(Variant("dup-first", BuildLib(DupFirst(c))))
+     \/ /\ Mode = "sig"
+        /\ \E t \in SigCodes : \E how \in {"root", "root-rev", "module", "no-type"} :
+              Step(Variant("sig/" \o how, SigLib(t, how)))
      \/ /\ Mode = "usetree"
         /\ \E tr \in UseTrees :
               Step([d |-> "usetree", lib |-> UseWorld \o <<Use(UsePaths(tr))>>, macro |-> "usetree", tree |-> <<tr>>])
@@ -284,7 +314,7 @@ MCSpec == MCInit /\ [][MCNext]_mcvars
 (* a behaviour is complete when no further Add follows *)
 Complete ==
   \/ Len(hist) = 2
-  \/ Len(hist) = 1 /\ (Mode \in {"single", "macro", "dup1", "usetree"} \/ ~valid \/ outcome # "Ok")
+  \/ Len(hist) = 1 /\ (Mode \in {"single", "macro", "dup1", "usetree", "sig"} \/ ~valid \/ outcome # "Ok")
 Emit == Complete => PrintT(<<"REPLAY", ToJson([mode |-> Mode, adds |-> hist])>>)
 
 Inv == TypeOK /\ (valid => ScopesClosed /\ AliasesResolve)
